@@ -475,4 +475,51 @@ theorem toom53_mul_eq (mul : Nat → Nat → Nat) (hmul : ∀ x y, mul x y = x *
     simp only [t]; push_cast; ring
   rw [this, Int.toNat_natCast]
 
+/-! ### sizes of the evaluation values -/
+
+/-- toom3_mul_n.c:126-135, :152-161, :199-208 — the evaluation values fit 2k+1 limbs with the small top limbs the
+    C asserts: v1 < 9·B^2k (`ASSERT(c2[k+k] < 9)`), |vm1| < 4·B^2k (`ASSERT(t[k+k] < 4)`), v2 < 49·B^2k
+    (`ASSERT(v2[k+k] < 49)`), for all blocks below t = B^k. -/
+theorem toom3_eval_bounds (t a0 a1 a2 b0 b1 b2 : Nat) (ha0 : a0 < t) (ha1 : a1 < t) (ha2 : a2 < t)
+    (hb0 : b0 < t) (hb1 : b1 < t) (hb2 : b2 < t) :
+    (a0 + a2 + a1) * (b0 + b2 + b1) < 9 * t ^ 2 ∧
+    absDiff (a0 + a2) a1 * absDiff (b0 + b2) b1 < 4 * t ^ 2 ∧
+    ((2 * a2 + a1) * 2 + a0) * ((2 * b2 + b1) * 2 + b0) < 49 * t ^ 2 := by
+  have h1 : a0 + a2 + a1 < 3 * t := by omega
+  have h2 : b0 + b2 + b1 < 3 * t := by omega
+  have h3 : absDiff (a0 + a2) a1 < 2 * t := by unfold absDiff; split <;> omega
+  have h4 : absDiff (b0 + b2) b1 < 2 * t := by unfold absDiff; split <;> omega
+  have h5 : (2 * a2 + a1) * 2 + a0 < 7 * t := by omega
+  have h6 : (2 * b2 + b1) * 2 + b0 < 7 * t := by omega
+  refine ⟨?_, ?_, ?_⟩
+  · calc (a0 + a2 + a1) * (b0 + b2 + b1) < (3 * t) * (3 * t) := Nat.mul_lt_mul'' h1 h2
+      _ = 9 * t ^ 2 := by ring
+  · calc absDiff (a0 + a2) a1 * absDiff (b0 + b2) b1 < (2 * t) * (2 * t) := Nat.mul_lt_mul'' h3 h4
+      _ = 4 * t ^ 2 := by ring
+  · calc ((2 * a2 + a1) * 2 + a0) * ((2 * b2 + b1) * 2 + b0) < (7 * t) * (7 * t) := Nat.mul_lt_mul'' h5 h6
+      _ = 49 * t ^ 2 := by ring
+
+/-- toom3_mul.c:472, :507, :561 (mpn_toom42_mul): |vm1| < 2·B^2k (`ASSERT(t[k+k] < 2)`), v2 < 45·B^2k
+    (`ASSERT(v2[k+k] < 45)`), but v1 = (a0+a1+a2+a3)(b0+b1) is only below 8·B^2k — NOT below the 6·B^2k that
+    `ASSERT(c2[k+k] < 6)` at :472 claims (that assertion fails for bn = 2k with large limbs, e.g. an = 20, bn = 10,
+    all limbs 2^64-1, in a WANT_ASSERT build; the product itself is still correct, and mpn_mul only calls
+    mpn_toom42_mul with bn < 2k, where the top limb stays below 5). -/
+theorem toom42_eval_bounds (t a0 a1 a2 a3 b0 b1 : Nat) (ha0 : a0 < t) (ha1 : a1 < t) (ha2 : a2 < t) (ha3 : a3 < t)
+    (hb0 : b0 < t) (hb1 : b1 < t) :
+    (a0 + a2 + (a1 + a3)) * (b0 + b1) < 8 * t ^ 2 ∧
+    absDiff (a0 + a2) (a1 + a3) * absDiff b0 b1 < 2 * t ^ 2 ∧
+    (((2 * a3 + a2) * 2 + a1) * 2 + a0) * (2 * b1 + b0) < 45 * t ^ 2 := by
+  have h1 : a0 + a2 + (a1 + a3) < 4 * t := by omega
+  have h2 : b0 + b1 < 2 * t := by omega
+  have h3 : absDiff (a0 + a2) (a1 + a3) < 2 * t := by unfold absDiff; split <;> omega
+  have h4 : absDiff b0 b1 < t := by unfold absDiff; split <;> omega
+  have h5 : ((2 * a3 + a2) * 2 + a1) * 2 + a0 < 15 * t := by omega
+  have h6 : 2 * b1 + b0 < 3 * t := by omega
+  refine ⟨?_, ?_, ?_⟩
+  · calc (a0 + a2 + (a1 + a3)) * (b0 + b1) < (4 * t) * (2 * t) := Nat.mul_lt_mul'' h1 h2
+      _ = 8 * t ^ 2 := by ring
+  · calc absDiff (a0 + a2) (a1 + a3) * absDiff b0 b1 < (2 * t) * t := Nat.mul_lt_mul'' h3 h4
+      _ = 2 * t ^ 2 := by ring
+  · calc (((2 * a3 + a2) * 2 + a1) * 2 + a0) * (2 * b1 + b0) < (15 * t) * (3 * t) := Nat.mul_lt_mul'' h5 h6
+      _ = 45 * t ^ 2 := by ring
 end Mpir.MulAlgo
